@@ -27,10 +27,10 @@ CLAUSES = {
 }
 # (cfg, workers, what it is)
 QUICK_EXH = {
-    "C06": [("Exh_PP_reader", 3), ("Exh_PL_reader", 3), ("Exh_PA_reader", 2), ("Exh_L2_reader", 2), ("Exh_2x2_core", 4)],
-    "C07": [("Exh_2x2_core", 4), ("Exh_PP_reader", 3), ("Exh_PA_reader", 2), ("Exh_L2_reader", 2), ("Exh_PL_reader", 3)],
+    "C06": [("Exh_PL_reader", 6), ("Exh_PP_reader", 4), ("Exh_PA_reader", 2), ("Exh_L2_reader", 2)],
+    "C07": [("Exh_2x2_core", 6), ("Exh_PP_reader", 4), ("Exh_PA_reader", 2), ("Exh_L2_reader", 2)],
 }
-THOR_EXH = [("Exh_PLA", 8), ("Thor_2x2_reader", 6), ("Thor_PLA_reader", 6), ("Thor_PPP", 4), ("Thor_PL2_reader", 6)]
+THOR_EXH = [("Exh_2x2_core", 4), ("Exh_PL_reader", 4), ("Exh_PLA", 8), ("Thor_2x2_reader", 6), ("Thor_PLA_reader", 6), ("Thor_PPP", 4), ("Thor_PL2_reader", 6)]
 BUGS = {
     "C06": {"Bug_PublishEarly": ["PublishedImpliesApplied", "ReadAtomic"],
             "Bug_DequeueUnapplied": ["PublishedImpliesApplied", "ReadAtomic"],
@@ -103,8 +103,8 @@ def design(run, exh, bugs, extra=()):
 # --------------------------------------------------------------------------
 # mode B
 def hooks_present():
-    p = os.path.join(vlib.REPO, "internal", "verifhook")
-    if not os.path.isdir(p):
+    p = os.path.join(vlib.REPO, "internal", "verifhook", "hook_on.go")
+    if not os.path.exists(p):
         return False
     try:
         src = open(os.path.join(vlib.REPO, "commit.go")).read()
@@ -215,6 +215,7 @@ def validate_files(run, files, checked, label, max_rejects=6):
     cfgb = trace_cfg(checked)
     rejected = 0
     events = 0
+    accepted = []
     while files:
         allp = os.path.join(wd, "all.ndjson")
         vlib.concat_traces(files, allp)
@@ -223,6 +224,7 @@ def validate_files(run, files, checked, label, max_rejects=6):
         events += v.hwm
         if v.accepted:
             run.traces += len(files)
+            accepted += files
             break
         if v.tlc.violation or ("Error:" in v.tlc.out and "TraceAccepted" not in v.tlc.out):
             raise vlib.Inconclusive("trace spec error during validation:\n" + v.tlc.out[-3000:])
@@ -238,6 +240,7 @@ def validate_files(run, files, checked, label, max_rejects=6):
             raise vlib.Inconclusive("cannot locate the rejected line")
         i, f, line = hit
         run.traces += i
+        accepted += files[:i]
         ev = v.rejected_line if isinstance(v.rejected_line, dict) else {"op": "reset"}
         op = ev.get("op")
         keep = os.path.join(run.outdir, os.path.basename(f))
@@ -267,7 +270,7 @@ def validate_files(run, files, checked, label, max_rejects=6):
         files = files[i + 1:]
         if rejected >= max_rejects:
             break
-    return events, rejected
+    return events, rejected, accepted
 
 
 def binding_demo(run, files, checked):
@@ -319,10 +322,17 @@ def binding_demo(run, files, checked):
                 done.append("one reader seqnum lowered below what it observed -> rejected at that read")
                 break
     # (4) drop one commit event
-    idx = [i for i, e in enumerate(evs) if e["op"] == "commit"]
-    i = idx[len(idx) // 3]
-    check(lines[:i] + lines[i + 1:], "a dropped commit event")
-    done.append("one commit event dropped -> rejected")
+    seen = set()
+    for e in evs:
+        if e["op"] == "read" and e["kind"] != "get":
+            for gg in e["obs"]:
+                for kk in gg:
+                    seen.update(kk)
+    idx = [i for i, e in enumerate(evs) if e["op"] == "commit" and ("seq" in checked or e["tok"] in seen)]
+    if idx:
+        i = idx[len(idx) // 3]
+        check(lines[:i] + lines[i + 1:], "a dropped commit event (its token was observed by a reader)")
+        done.append("one commit event dropped -> rejected")
     if len(done) < 2:
         raise vlib.Inconclusive("binding demo could not be completed")
     run.cov["binding_demo"] = done
@@ -399,9 +409,12 @@ def common(run, prop, plans, race=False, rich=False):
                 raise vlib.Inconclusive("stress driver died:\n" + out[-3000:])
     if not files:
         raise vlib.Inconclusive("no traces produced")
-    events, rejected = validate_files(run, files, checked, prop)
-    if rejected == 0:
-        binding_demo(run, files, checked)
+    events, rejected, accepted = validate_files(run, files, checked, prop)
+    if accepted:
+        binding_demo(run, accepted, checked)
+    elif not run.violations:
+        raise vlib.Inconclusive("no accepted trace to run the binding demonstration on")
+    run.cov["traces_rejected"] = rejected
     stats(run, files)
     run.cov["trace_events"] = events
     run.cov["clauses_asserted"] = checked
@@ -440,9 +453,47 @@ ASSUME = [
 ]
 
 
+def mode_c(run, prop):
+    """forced schedules + exploration through verifhook Points; only when /repo carries them"""
+    if not mode_c_note(run):
+        return
+    binp = vlib.build_driver(".", name="root_commit_hook", tags="verif,verifhook_commit", timeout=2400)
+    tdir = vlib.scratch("verif.cmh.")
+    quick = run.tier == "quick"
+    env = dict(VERIF_OUT=tdir, VERIF_SEED=str(run.seed), VERIF_ROUNDS=str(3 if quick else 30))
+    rc, out = vlib.run_driver(binp, "TestVCommitHookForced", env=env, timeout=1200)
+    if "DRIVER-DONE" not in out:
+        raise vlib.Inconclusive("forced-schedule driver died:\n" + out[-2000:])
+    drift = re.findall(r"^DRIFT schedule=(\S+)", out, re.M)
+    for d in drift:
+        vlib.log("DRIFT module=Commit event=%s (the real goroutines did not reach the armed Point; exploration continues)" % d)
+    env = dict(VERIF_OUT=tdir, VERIF_SEED=str(run.seed), VERIF_ROUNDS=str(4 if quick else 40), VERIF_HOOKYIELD="20",
+               VERIF_K="8", VERIF_COMMITS="12")
+    rc, out2 = vlib.run_driver(binp, "TestVCommitHookExplore", env=env, timeout=1500)
+    if "DRIVER-DONE" not in out2:
+        if "VCOMMIT-HANG" in out2:
+            keep = os.path.join(run.outdir, "hang_goroutines_modeC.txt")
+            open(keep, "w").write(out2)
+            run.violation({"kind": "hang"}, "no progress under the Point scheduler; goroutine dump in " + keep, {"dump": keep})
+        else:
+            raise vlib.Inconclusive("exploration driver died:\n" + out2[-2000:])
+    files = sorted(glob.glob(os.path.join(tdir, "*.ndjson")))
+    events, rejected, accepted = validate_files(run, files, CLAUSES[prop], prop + "/modeC")
+    sites = dict((m.group(1), int(m.group(2))) for m in re.finditer(r"^SITE (\S+) (\d+)", out2, re.M))
+    run.cov["mode_C"] = dict(forced_schedules=len([f for f in files if "forced-" in f]), drift=drift,
+                             exploration_rounds=len([f for f in files if "hookexp-" in f]), points_hit=sites,
+                             trace_events=events, rejected=rejected,
+                             schedules="directed: cas-race (Bug_StoreNotCAS), unapplied-head (Bug_PublishEarly/DequeueUnapplied), "
+                                       "reader-two-step, rotate-under-reader (reader between loadReadState and visibleSeqNum.Load)")
+    never = [p for p in ("commit.publish.loaded", "commit.beforeApply", "db.newIter.stateLoaded", "commit.dequeue.cas") if p not in sites]
+    if never:
+        vlib.log("DRIFT module=Commit event=points-never-hit:%s" % ",".join(never))
+        run.cov["mode_C"]["drift"] = drift + never
+
+
 def mode_c_note(run):
     if hooks_present():
-        run.cov["mode_C"] = "verifhook Points present in /repo: forced schedules are run by run_mode_c"
+        run.cov["mode_C"] = "verifhook Points present in /repo"
         return True
     run.cov["mode_C"] = ("not run: /repo has no internal/verifhook with commit Points (hooks/commit.patch not applied); "
                          "mode B + exhaustive spec + hook-free random-yield exploration were run")
@@ -450,15 +501,16 @@ def mode_c_note(run):
 
 
 def run_c06(run):
-    other = design(run, QUICK_EXH["C06"] if run.tier == "quick" else QUICK_EXH["C06"] + THOR_EXH, BUGS["C06"])
-    mode_c_note(run)
+    exh = QUICK_EXH["C06"] if run.tier == "quick" else list(dict(QUICK_EXH["C06"] + THOR_EXH).items())
+    other = design(run, exh, BUGS["C06"])
     common(run, "C06", plans_for(run.tier))
+    mode_c(run, "C06")
     run.assumptions += ASSUME
 
 
 def run_c07(run):
     extra = [("lead", "Lead_ElideUnpublished", 2, None, dict(timeout=600, heap="2g"))]
-    exh = QUICK_EXH["C07"] if run.tier == "quick" else QUICK_EXH["C07"] + THOR_EXH
+    exh = QUICK_EXH["C07"] if run.tier == "quick" else list(dict(QUICK_EXH["C07"] + THOR_EXH).items())
     if run.tier == "thorough":
         extra.append(("live", "Live_PP", 4, None, dict(timeout=2400, heap="8g")))
     other = design(run, exh, BUGS["C07"], extra)
@@ -468,8 +520,8 @@ def run_c07(run):
             raise vlib.Inconclusive("liveness (Termination under weak fairness) failed on the unmodified spec: %s" % r.violation)
         run.add_design("Commit/Live_PP [Termination under WF, 2 plain x 1 + reader]", r)
     lead = other["Lead_ElideUnpublished"]
-    mode_c_note(run)
     common(run, "C07", plans_for(run.tier))
+    mode_c(run, "C07")
     # spec-level lead -> directed reproduction on the real code (DESIGN 4 (ii))
     if lead.violation == "ReadYourWrites":
         res = probe_lead(run)
